@@ -1,6 +1,8 @@
 package main
 
 import (
+	"fmt"
+	"strings"
 	"golang.org/x/tools/go/ssa"
 	"golang.org/x/tools/go/ssa/ssautil"
 )
@@ -9,6 +11,16 @@ import (
 
 func builtinChecks(e *Engine, prop, tier string) []*groupResult {
 	switch prop {
+	case "C05":
+		gs := lemmaGroups("render.mcTables", mcTableLemmas(e.x))
+		gs = append(gs, cellCodeCheck(e, "mcToTriangles", 8, e.x.intTable1("render", "mcEdgeTable"), e.x.intTable2("render", "mcPairTable"), e.x.intTable2("render", "mcTriangleTable"), 3, "mcInterpolate"))
+		gs = append(gs, tablesImmutable(e, []string{"mcEdgeTable", "mcPairTable", "mcTriangleTable"}))
+		return gs
+	case "C08":
+		gs := lemmaGroups("render.msTables", msTableLemmas(e.x))
+		gs = append(gs, cellCodeCheck(e, "msToLines", 4, e.x.intTable1("render", "msEdgeTable"), e.x.intTable2("render", "msPairTable"), e.x.intTable2("render", "msLineTable"), 2, "msInterpolate"))
+		gs = append(gs, tablesImmutable(e, []string{"msEdgeTable", "msPairTable", "msLineTable"}))
+		return gs
 	case "C10":
 		gs, assumed := frameChecks(e)
 		for _, a := range assumed {
@@ -27,4 +39,59 @@ func ssautilAllFunctions(prog *ssa.Program) map[*ssa.Function]bool {
 func (x *Exec) appendSym(st *State, fr *Frame, s, m *SliceV) Value {
 	fail("append with symbolic lengths not modelled")
 	return nil
+}
+
+// tablesImmutable: no instruction outside the package initialiser stores
+// through an address derived from the named package-level tables.
+func tablesImmutable(e *Engine, names []string) *groupResult {
+	g := &groupResult{Name: "render.tables/immutable", Status: "discharged", Queries: 1, Backends: []string{"frame"}, What: "the case tables " + strings.Join(names, ", ") + " are written only by the package initialiser (so reading them from init is reading the values every call sees)"}
+	want := map[string]bool{}
+	for _, n := range names {
+		want[n] = true
+	}
+	var bad []string
+	for fn := range ssautil.AllFunctions(e.x.prog) {
+		if !inModule(fn) || fn.Name() == "init" {
+			continue
+		}
+		for _, b := range fn.Blocks {
+			for _, in := range b.Instrs {
+				var addr ssa.Value
+				switch s := in.(type) {
+				case *ssa.Store:
+					addr = s.Addr
+				case *ssa.MapUpdate:
+					addr = s.Map
+				default:
+					continue
+				}
+				// walk to the root
+				for depth := 0; depth < 20 && addr != nil; depth++ {
+					switch a := addr.(type) {
+					case *ssa.FieldAddr:
+						addr = a.X
+					case *ssa.IndexAddr:
+						addr = a.X
+					case *ssa.Slice:
+						addr = a.X
+					case *ssa.UnOp:
+						addr = a.X
+					case *ssa.Global:
+						if a.Pkg != nil && a.Pkg.Pkg.Name() == "render" && want[a.Name()] {
+							p := e.x.prog.Fset.Position(in.Pos())
+							bad = append(bad, fmt.Sprintf("%s writes %s (%s:%d)", shortFn(fn), a.Name(), trimRepo(p.Filename, e.repo), p.Line))
+						}
+						addr = nil
+					default:
+						addr = nil
+					}
+				}
+			}
+		}
+	}
+	if len(bad) > 0 {
+		g.Status = "refuted"
+		g.Detail = strings.Join(bad, "; ")
+	}
+	return g
 }
